@@ -31,14 +31,14 @@ RULE = (
     "(the generator receives through an unpacking assignment and, per instance, may absorb GeneratorExit) "
     "history = list (<=20 quick / <=45 thorough ops) over {enter overlay k (5 specs incl. ga>fc>u, fc>u, "
     "fb>fc>u, ga>u, ga(w)>fc>u), leave innermost overlay, create generator ga(plan), next i, close i, drop i, "
-    "driver call of a plan over fa/fb/fc} x driver placement (top level / inside instrumented fd under an "
+    "throw into a generator suspended at its first yield, driver call of a plan over fa/fb/fc} x driver placement (top level / inside instrumented fd under an "
     "enclosing fd>fc>u overlay). evaluations = operations applied. Non-trivial = a driver call happens "
     "while >=1 generator is suspended, or generators finish in non-LIFO order, or a generator outlives its "
     "overlay; distinct by history hash."
 )
 ASSUMPTIONS = [
     "events produced by a generator body for overlays that do not span the generator's life so far are don't-care",
-    "yield-from delegation and throw() are not part of the property's operation set and are not generated",
+    "yield-from delegation is not part of the property's operation set and is not generated; throw() is only generated at the first yield, where the family generator absorbs the error and yields again",
 ]
 
 
@@ -81,6 +81,12 @@ class Sim:
         self.flags = set()
         self.done_order = []
         self.next_id = 0
+        self.pending_ov = {}
+        F.DISPATCH["cbov"] = self._cbov
+
+    def _cbov(self, node):
+        self.pending_ov.pop(node["id"])["cm"].__enter__()
+        return node["ret"]
 
     # ---- plumbing
     def _mk_overlay(self, sel):
@@ -150,6 +156,13 @@ class Sim:
     def op_gen(self, node):
         node = dict(node, fn="ga", raises=False)
         idx = len(self.gens)
+        if node.get("enter_ov") is not None:
+            # the generator's body itself enters an overlay (first thing it does) and does not
+            # leave it: from then on it is an overlay like any other, ended by the driver
+            cb = {"id": 0, "fn": "cbov", "u0": 0, "w0": 0, "ru": None, "rw": None, "pre": [], "post": [],
+                  "via": False, "catch": False, "raises": False, "ret": 0, "spec": node["enter_ov"]}
+            node = dict(node, pre=[cb] + list(node["pre"]))
+            self.flags.add("overlay-entered-by-generator-body")
         (node,) = self._renumber([node], idx)
         g = self.tf["ga"](copy.deepcopy(node))
         self.gens.append({"node": node, "gen": g, "state": "new", "act": None, "start_t": None})
@@ -166,7 +179,15 @@ class Sim:
             tr.binds.append(M.Bind(tr.tick(), act, "node", node))
             tr.binds.append(M.Bind(tr.tick(), act, "u", node["u0"]))
             tr.binds.append(M.Bind(tr.tick(), act, "w", node["w0"]))
+            n0 = len(tr.binds)
             M.simulate(node["pre"], base=act, trace=tr)
+            if node["pre"] and node["pre"][0]["fn"] == "cbov":
+                cbn = node["pre"][0]
+                rec = self._mk_overlay(SPECS[cbn["spec"] % len(SPECS)])
+                rec["open_t"] = next(b.t for b in tr.binds[n0:] if b.act.fn == "cbov")
+                self.overlays.append(rec)
+                self.stack.append(rec)
+                self.pending_ov[cbn["id"]] = rec
         elif seg == 2:
             act = g["act"]
             if node["ru"] is not None:
@@ -203,6 +224,24 @@ class Sim:
                                     extra={"bucket": "gen-run:" + HY.exc_bucket(e)})
         if got != want:
             raise PropertyViolation("gen-result", f"next(gen {i}) gave {got!r}, expected {want!r}")
+
+    def op_throw(self, i):
+        """throw(ValueError) into a generator suspended at its first yield: it absorbs the error and
+        yields the same value again - no binding, no call, and nothing changes for its caller."""
+        if not self.gens:
+            return
+        i %= len(self.gens)
+        g = self.gens[i]
+        if g["state"] != "s1":
+            return
+        self.flags.add("throw")
+        try:
+            got = ("yield", g["gen"].throw(ValueError("thrown")))
+        except BaseException as e:
+            raise PropertyViolation("gen-run", f"throw into gen {i} raised {HY.describe_exc(e)}",
+                                    extra={"bucket": "gen-run:" + HY.exc_bucket(e)})
+        if got != ("yield", g["node"]["u0"]):
+            raise PropertyViolation("gen-result", f"throw into gen {i} gave {got!r}, expected the first value again")
 
     def _finish(self, g, i):
         g["state"] = "done"
@@ -300,6 +339,7 @@ class Sim:
         gc.collect()
         HY.force_global_clean()
         F.DISPATCH.update(F.RAW)
+        F.DISPATCH.pop("cbov", None)
 
 
 def _ids(children):
@@ -373,8 +413,9 @@ def strategy(max_ops):
     from hypothesis import strategies as st
 
     plans = T.plan_strategy(max_nodes=4, max_depth=3, fns=["fc", "fc", "fb", "fa"], raising=False)
-    gnode = st.tuples(T.plan_strategy(max_nodes=4, max_depth=3, fns=["fc", "fc", "fb"], raising=False), st.booleans()
-                      ).map(lambda t: dict(t[0][0], swallow=t[1]))  # swallow: absorbs GeneratorExit at a yield
+    gnode = st.tuples(T.plan_strategy(max_nodes=4, max_depth=3, fns=["fc", "fc", "fb"], raising=False), st.booleans(),
+                      st.sampled_from([None, None, None, 0, 1, 4])
+                      ).map(lambda t: dict(t[0][0], swallow=t[1], enter_ov=t[2]))  # swallow: absorbs GeneratorExit
     ov = st.tuples(st.just("ov"), st.sampled_from([0, 0, 4, 4, 1, 2, 3]))
     nxt = st.tuples(st.just("next"), st.integers(0, 2))
     call = st.tuples(st.just("call"), plans)
@@ -383,6 +424,7 @@ def strategy(max_ops):
         ov, st.tuples(st.just("leave")), gen, gen, nxt, nxt, nxt, nxt, nxt,
         st.tuples(st.just("close"), st.integers(0, 2)),
         st.tuples(st.just("drop"), st.integers(0, 2)),
+        st.tuples(st.just("throw"), st.integers(0, 2)),
         call, call, call,
     )
     prefix = st.lists(ov, min_size=0, max_size=2)
